@@ -214,7 +214,9 @@ func regexpNext(sb *strings.Builder, sl *stringLexer, mode Mode) error {
 		}
 		// "**" only acts as globstar if it is alone as a path element.
 		singleBefore := sl.i == 1 || sl.last() == '/'
-		if sl.peekNext() == '*' {
+		starGroup := mode&ExtendedOperators != 0 && strings.HasPrefix(sl.peekRest(), "*(")
+		if sl.peekNext() == '*' && !starGroup {
+			// Note that in "**(x)" the second star starts an extended operator.
 			sl.i++
 			singleAfter := sl.i == len(sl.s) || sl.peekNext() == '/'
 			if mode&NoGlobStar == 0 && singleBefore && singleAfter {
